@@ -1,0 +1,25 @@
+//go:build verif
+
+package rtpmpeg4audio
+
+// Contracts checked by /verif/govc (see /verif/DESIGN.md). Comment-only file.
+
+// C07, resynchronisation of the RFC 3640 depacketizer: whenever Decode fails (other than by
+// asking for more packets) and whenever it returns access units, no partial access unit is
+// left behind, so the next start packet is decoded from a clean state.
+//@ func (d *Decoder) readAUHeaders
+//@   modifies fresh
+//@ func (d *Decoder) removeADTS
+//@   modifies d.firstAUParsed, d.adtsMode, elems(aus), fresh
+//@ func joinFragments
+//@   modifies fresh
+
+//@ func (d *Decoder) resetFragments
+//@   ensures[C07] d.fragmentsSize == 0 && len(d.fragments) == 0
+//@   modifies d.fragments, d.fragmentsSize
+
+//@ func (d *Decoder) Decode
+//@   requires pkt != nil
+//@   ensures[C07] err != nil && err != ErrMorePacketsNeeded ==> d.fragmentsSize == 0
+//@   ensures[C07] err == nil ==> d.fragmentsSize == 0
+//@   modifies *
